@@ -411,6 +411,18 @@ def _is_cell_expr(e):
     return t.endswith(".cell") or t == "cell" or t.endswith(".cell.T")
 
 
+def _is_diag_matrix(e):
+    """diag(diag(cell)) or diag(cell) * identity(3) / eye(3): the diagonal part of the cell matrix"""
+    if isinstance(e, ast.Call) and call_name(e) == "diag" and e.args and isinstance(e.args[0], ast.Call) and call_name(e.args[0]) == "diag":
+        return True
+    if isinstance(e, ast.BinOp) and isinstance(e.op, ast.Mult):
+        parts = [e.left, e.right]
+        d = [x for x in parts if isinstance(x, ast.Call) and call_name(x) == "diag"]
+        i = [x for x in parts if isinstance(x, ast.Call) and call_name(x) in ("identity", "eye")]
+        return len(d) == 1 and len(i) == 1
+    return False
+
+
 def C_axis_diag(repo, clause):
     """np.diag(<cell>) only under an orthorhombic guard, inside the orthorhombic test itself, or where the
     LAMMPS lower-triangular validation post-dominates it."""
@@ -487,11 +499,15 @@ def C_axis_diag(repo, clause):
         e = expand(co, rets[0].value)
         txt = re.sub(r"\s", "", ast.unparse(e))
         whole = "count_nonzero(self.cell-np.diag(np.diag(self.cell)))" in txt
+        bad_diag = None
         for c_ in ast.walk(e):
             if isinstance(c_, ast.Compare) and len(c_.ops) == 1 and isinstance(c_.ops[0], ast.Eq):
                 sides = [ast.unparse(c_.left), ast.unparse(c_.comparators[0])]
-                if "self.cell" in sides and any("np.diag(self.cell)" in sd for sd in sides if sd != "self.cell"):
+                other_ = [x_ for x_ in (c_.left, c_.comparators[0]) if ast.unparse(x_) != "self.cell"]
+                if "self.cell" in sides and len(other_) == 1 and _is_diag_matrix(other_[0]):
                     whole = True
+                elif "self.cell" in sides and len(other_) == 1 and "np.diag(self.cell)" in ast.unparse(other_[0]):
+                    bad_diag = other_[0]
             if isinstance(c_, ast.Call) and call_name(c_) in ("array_equal",) and len(c_.args) >= 2:
                 sides = [ast.unparse(a_) for a_ in c_.args[:2]]
                 if "self.cell" in sides and any("np.diag(self.cell)" in sd for sd in sides if sd != "self.cell"):
@@ -512,11 +528,13 @@ def C_axis_diag(repo, clause):
         elif angles:
             ok = False
             detail = " -- the test looks at the cell ANGLES (`%s`): right angles do not make the matrix diagonal (rotated or permuted frame), but every caller uses np.diag(cell) as the box" % ast.unparse(angles[0])[:60]
+        elif not ok and bad_diag is not None:
+            detail = " -- the cell is compared with `%s`, which is NOT the diagonal part of the matrix (diag(cell) * identity): off-diagonal entries become inf/nan and no cell ever passes" % ast.unparse(bad_diag)[:60]
         elif not ok:
             detail = " -- only the off-diagonal entries %s are examined: a cell with other non-zero off-diagonal entries is classed as orthorhombic" % sorted(entries)
         obs.append(Ob("Caxis", clause, co, rets[0], ok,
                       "orthorhombic test compares the whole cell matrix exactly with its diagonal part%s" % detail,
-                      slot="orthorhombic-test", positive=bool(tol) or bool(angles) or (bool(entries) and len(entries) < 6)))
+                      slot="orthorhombic-test", positive=bool(tol) or bool(angles) or (bool(entries) and len(entries) < 6) or (not ok and bad_diag is not None)))
     return obs
 
 
@@ -937,6 +955,115 @@ def C_quaternion_layout(repo, clause):
             positive = True
             detail = "axis is rotated onto coordinate %d; distance from the axis is measured in coordinates %s" % (k[0], sorted(cols))
     obs.append(Ob("Cquat", clause, fn, qc[0] if qc else fn.node, ok, detail, slot="farthest-from-axis-columns", positive=positive))
+    obs.extend(_roll_sign(repo, clause))
+    return obs
+
+
+def _roll_sign(repo, clause):
+    """Sense of the roll about a given axis n: with theta = arccos(v1.v2) in [0, pi], the rotation taking v1 to v2 is +theta about n
+    when cross(v1, v2) is parallel to n and -theta when it is antiparallel.  The helper builds its quaternion from s_q*theta and
+    multiplies theta by s_b on the branch where cross(v1, v2) matches n: s_q*s_b must be +1 there and s_q must be -1 elsewhere."""
+    fn = repo.fn("quaternion_from_two_vectors_around_axis")
+    obs = []
+    fq = [c for c in calls_in(fn) if call_name(c) == "from_quat"]
+    if len(fq) != 1 or not fq[0].args:
+        return obs
+    trig = [x for x in ast.walk(fq[0].args[0]) if isinstance(x, ast.Call) and call_name(x) in ("sin",) and x.args]
+    if len(trig) != 1:
+        return obs
+
+    def sign_of(e, name):
+        """sign with which `name` enters the product/quotient expression e (None if not of that form)"""
+        if isinstance(e, ast.Name):
+            return 1 if e.id == name else None
+        if isinstance(e, ast.UnaryOp) and isinstance(e.op, ast.USub):
+            s_ = sign_of(e.operand, name)
+            return -s_ if s_ is not None else None
+        if isinstance(e, ast.BinOp) and isinstance(e.op, (ast.Mult, ast.Div)):
+            l, r_ = sign_of(e.left, name), sign_of(e.right, name)
+            cl, cr = const_value(e.left), const_value(e.right)
+            if l is not None and cr is not None and cr != 0:
+                return l * (1 if cr > 0 else -1)
+            if r_ is not None and cl is not None and cl != 0 and isinstance(e.op, ast.Mult):
+                return r_ * (1 if cl > 0 else -1)
+        return None
+    # the angle variable
+    acs = [n for n in fn.own_nodes() if isinstance(n, ast.Assign) and isinstance(n.value, ast.Call) and call_name(n.value) == "arccos"
+           and len(n.targets) == 1 and isinstance(n.targets[0], ast.Name)]
+    if len(acs) != 1:
+        return obs
+    ang = acs[0].targets[0].id
+    s_q = sign_of(trig[0].args[0], ang)
+    flips = [n for n in fn.own_nodes() if isinstance(n, ast.AugAssign) and isinstance(n.target, ast.Name) and n.target.id == ang and isinstance(n.op, ast.Mult)
+             and const_value(n.value) is not None] + \
+            [n for n in fn.own_nodes() if isinstance(n, ast.Assign) and len(n.targets) == 1 and isinstance(n.targets[0], ast.Name) and n.targets[0].id == ang
+             and n is not acs[0] and sign_of(n.value, ang) is not None]
+    s_b = 1
+    flip_node = None
+    par_guard = False
+    for f_ in flips:
+        flip_node = f_
+        s_b = (1 if const_value(f_.value) > 0 else -1) if isinstance(f_, ast.AugAssign) else sign_of(f_.value, ang)
+        for t, pol, k in norm_guards(fn, f_):
+            if pol and any(isinstance(x, ast.Call) and call_name(x) == "cross" for x in ast.walk(t)) and any(isinstance(x, ast.Call) and call_name(x) in ("isclose", "allclose") for x in ast.walk(t)):
+                par_guard = True
+    if s_q is None:
+        obs.append(Ob("Cquat", clause, fn, fq[0], False, "roll sense: the angle does not enter the quaternion as a signed multiple of the arccos result", slot="roll-sense", undecided=True))
+        return obs
+    ok = (s_q == -1 and flip_node is not None and par_guard and s_b == -1) or (s_q == 1 and flip_node is not None and not par_guard and False)
+    if s_q == -1:
+        detail = "quaternion uses -theta; on the branch where cross(v1, v2) is parallel to the axis theta is multiplied by %s%s" % (
+            "%+d" % s_b if flip_node is not None else "+1 (NO sign flip)", "" if ok else
+            ": the product of the two signs must be +1 there (right-handed rotation by +theta about the axis) - as written the orientation point is rolled the WRONG way for half of the poses and the pose check then rejects the match")
+    else:
+        detail = "quaternion uses +theta: the antiparallel branch (cross(v1, v2) opposite to the axis) must then flip the sign; not recognised"
+    obs.append(Ob("Cquat", clause, fn, flip_node if flip_node is not None else fq[0], ok, detail, slot="roll-sense",
+                  positive=(s_q == -1 and (flip_node is None or (par_guard and s_b != -1))), undecided=not (s_q == -1)))
+    # the branch test itself: isclose(axis, cross(v1, v2) / norm(cross(v1, v2))) with v1 from the FIRST point and v2 from the SECOND
+    if flip_node is not None and par_guard:
+        p1, p2 = fn.params[0], fn.params[1]
+
+        def origin(nm):
+            seen, work, hit = set(), [nm], set()
+            while work:
+                x = work.pop()
+                if x in seen:
+                    continue
+                seen.add(x)
+                if x in (p1, p2):
+                    hit.add(x)
+                for d in fn.own_nodes():
+                    if isinstance(d, ast.Assign) and any(isinstance(t, ast.Name) and t.id == x for t in d.targets):
+                        for y in ast.walk(d.value):
+                            if isinstance(y, ast.Name) and y.id != x:
+                                work.append(y.id)
+                            elif isinstance(y, ast.Name) and y.id in (p1, p2):
+                                hit.add(y.id)
+            return hit
+        for t, pol, k in norm_guards(fn, flip_node):
+            for c in [x for x in ast.walk(t) if isinstance(x, ast.Call) and call_name(x) in ("isclose", "allclose") and len(x.args) >= 2]:
+                other = [a for a in c.args[:2] if any(isinstance(y, ast.Call) and call_name(y) == "cross" for y in ast.walk(a))]
+                if len(other) != 1:
+                    continue
+                e = other[0]
+                crosses = [y for y in ast.walk(e) if isinstance(y, ast.Call) and call_name(y) == "cross" and len(y.args) == 2]
+                unit = isinstance(e, ast.BinOp) and isinstance(e.op, ast.Div) and isinstance(e.left, ast.Call) and call_name(e.left) == "cross" \
+                    and isinstance(e.right, ast.Call) and call_name(e.right) == "norm" and e.right.args and isinstance(e.right.args[0], ast.Call) and call_name(e.right.args[0]) == "cross" \
+                    and sorted(ast.unparse(z) for z in e.right.args[0].args) == sorted(ast.unparse(z) for z in e.left.args)
+                top = e.left if isinstance(e, ast.BinOp) and isinstance(e.left, ast.Call) and call_name(e.left) == "cross" else crosses[0]
+                a_, b_ = top.args
+                oa = origin(a_.id) if isinstance(a_, ast.Name) else set()
+                ob_ = origin(b_.id) if isinstance(b_, ast.Name) else set()
+                order_ok = oa == {p1} and ob_ == {p2}
+                swapped = oa == {p2} and ob_ == {p1}
+                obs.append(Ob("Cquat", clause, fn, c, unit and order_ok,
+                              "roll branch test compares the unit axis with %s" % (
+                                  "cross(v1, v2) / |cross(v1, v2)| (v1 from the first point, v2 from the second)" if unit and order_ok else (
+                                      "`%s`: %s" % (ast.unparse(e)[:70],
+                                                    "the cross product is taken in the OPPOSITE order, so the two senses of rotation are exchanged" if swapped else
+                                                    ("NOT the unit normal (cross product divided by its own norm): the comparison with the unit axis fails for every pose and the sign is never flipped" if not unit else
+                                                     "operands of the cross product are not recognisably derived from the two points")))),
+                              slot="roll-branch-test", positive=swapped or (not unit and order_ok), undecided=not (swapped or (not unit and order_ok))))
     return obs
 
 
@@ -1068,4 +1195,35 @@ def C_element_gate_equality(repo, clause):
                       ": a membership test against the argument, but %s passes ONE element symbol (a str) - `in` is then a SUBSTRING test, so 'C' qualifies for 'Cl', 'N' for 'Na', 'S' for 'Si' and the element of the first pattern atom is no longer enforced" % (
                           scalar_callers[0][0].qualname if scalar_callers else "no recognised caller") if is_in else ": not an equality test")),
                   slot="element-equality", positive=is_in and bool(scalar_callers), undecided=not (is_in and bool(scalar_callers))))
+    return obs
+
+
+def C_wrap_modulus(repo, clause, modules=("mofun.mofun", "mofun.atoms", "mofun.detect_bonds")):
+    """Coordinates are wrapped either by the cell diagonal (rule Caxis) or, in fractional coordinates, by exactly 1: `frac % c` with
+    any other constant c is a translation by a non-lattice vector (c < 1) or leaves atoms outside the cell (c > 1)."""
+    obs = []
+    n = 0
+    for fn in repo.all_fns():
+        if fn.module.name not in modules:
+            continue
+        for x in fn.own_nodes():
+            left = right = None
+            if isinstance(x, ast.BinOp) and isinstance(x.op, ast.Mod):
+                left, right = x.left, x.right
+            elif isinstance(x, ast.AugAssign) and isinstance(x.op, ast.Mod):
+                left, right = x.target, x.value
+            if right is None or const_value(right) is None or isinstance(const_value(right), (str, bool)):
+                continue
+            if isinstance(left, ast.Constant) and isinstance(left.value, str):
+                continue
+            if isinstance(left, ast.JoinedStr):
+                continue
+            n += 1
+            c = const_value(right)
+            obs.append(Ob("Cwrap", clause, fn, x, c == 1,
+                          "coordinates wrapped by the constant %r in %s%s" % (c, fn.qualname, "" if c == 1 else
+                                                                              ": fractional coordinates are periodic with period 1 - a modulus of %r %s" % (
+                                                                                  c, "shifts atoms by a fraction of a lattice vector (not a lattice translation)" if c < 1 else "leaves wrapped atoms outside the unit cell")),
+                          slot="wrap-modulus:%s" % fn.qualname, positive=True))
+    floor("Cwrap", "constant-modulus wraps", n, 2)
     return obs
